@@ -1,6 +1,7 @@
 """Module for reading and writing schema objects."""
 
 import json
+import math
 import warnings
 from collections.abc import Mapping
 from functools import partial
@@ -486,6 +487,14 @@ MultiIndex(indexes=[{indexes}])
 """
 
 
+def _format_value(value):
+    """The python expression for a check statistic: ``repr``, except for the
+    floats whose repr is a name (``inf``, ``-inf``, ``nan``)."""
+    if isinstance(value, float) and not math.isfinite(value):
+        return f'float("{value}")'
+    return repr(value)
+
+
 def _format_checks(checks_dict):
     """Format checks into string representation including options."""
     if checks_dict is None:
@@ -510,7 +519,7 @@ def _format_checks(checks_dict):
         # Format main check arguments
         if isinstance(check_kwargs, dict):
             args = ", ".join(
-                f"{k}={v.__repr__()}" for k, v in check_kwargs.items()
+                f"{k}={_format_value(v)}" for k, v in check_kwargs.items()
             )
         else:
             args = check_kwargs.__repr__()
@@ -520,7 +529,7 @@ def _format_checks(checks_dict):
             if args:
                 args += ", "
             args += ", ".join(
-                f"{k}={v.__repr__()}" for k, v in options.items()
+                f"{k}={_format_value(v)}" for k, v in options.items()
             )
 
         checks.append(f"Check.{check_name}({args})")
